@@ -188,8 +188,9 @@ def audit(meta, log):
 
 def coqchk(meta, log):
     mod = "AV." + meta["props_file"][len("theories/"):-2].replace("/", ".")
+    t_c = time.time()
     rc, out = sh(["coqchk", "-silent", "-o", "-Q", "theories", "AV", mod], cwd=COQ, timeout=1800)
-    log.append("== coqchk rc %d\n%s" % (rc, out[-3000:]))
+    log.append("== coqchk rc %d in %.1fs\n%s" % (rc, time.time() - t_c, out[-3000:]))
     return rc == 0, out
 
 
@@ -243,6 +244,7 @@ def run_bin(binpath, meta, seed, tier, extra, log, timeout):
 # ------------------------------------------------------------------ model evaluation
 def eval_model(meta, cases, log):
     """returns dict id -> True/False (agreement), plus list of shard errors"""
+    t_ev = time.time()
     wd = os.path.join(WORK, meta["id"], "cases")
     shutil.rmtree(wd, ignore_errors=True)
     os.makedirs(wd)
@@ -277,7 +279,7 @@ def eval_model(meta, cases, log):
                     agree[todo[k]["id"]] = res[k]
             if rc != 0 or len(res) != n:
                 errors.append("%s: rc %d, %d/%d results: %s" % (name, rc, len(res), n, out[-600:]))
-    log.append("== model evaluation: %d cases in %d shards, %d errors" % (len(todo), len(shards), len(errors)))
+    log.append("== model evaluation: %d cases in %d shards, %d errors, %.1fs" % (len(todo), len(shards), len(errors), time.time() - t_ev))
     return agree, errors, len(todo)
 
 
